@@ -21,6 +21,7 @@ type roundObs struct {
 	Edits  []string
 	Old    *tree.Tree // dest before the round
 	Src    *tree.Tree // source view of the round
+	SrcF   *tree.Tree // source view as rewritten by the receiver's Filter (== Src without one)
 	New    *tree.Tree // dest after the round
 	Stats  []*types.Stat
 	Reqs   []string // requested paths, in order
@@ -35,8 +36,9 @@ type histOpt struct {
 	DiffNoneP int // 1/n probability of DiffNone in a round (0 = never)
 	Targeted  bool
 	Synthetic bool
-	Unchanged bool // add a final round without edits
-	SlowFiles bool // reorder completion of file contents through read delays
+	Unchanged bool              // add a final round without edits
+	SlowFiles bool              // reorder completion of file contents through read delays
+	Filter    fsutil.FilterFunc // receiver-side filter that rewrites metadata (always accepts)
 	GenOpt    tree.GenOpt
 	EditOpt   editOpt
 }
@@ -126,7 +128,19 @@ func runHistoryFrom(c *core.Ctx, r *core.Result, ho histOpt, cur *tree.Tree, edi
 		}
 		ro.Old = old
 		nrec := newNotifyRec()
-		ropt := fsutil.ReceiveOpt{NotifyHashed: nrec.fn, ContentHasher: newHasher().fn, Differ: ro.Differ}
+		ropt := fsutil.ReceiveOpt{NotifyHashed: nrec.fn, ContentHasher: newHasher().fn, Differ: ro.Differ, Filter: ho.Filter}
+		ro.SrcF = ro.Src
+		if ho.Filter != nil {
+			ro.SrcF = &tree.Tree{}
+			for i := range ro.Src.Entries {
+				e := &ro.Src.Entries[i]
+				st := e.Stat()
+				ho.Filter(st.Path, st)
+				ne := tree.FromStat(st)
+				ne.Data, ne.Ino, ne.Nlink, ne.Dev = e.Data, e.Ino, e.Nlink, e.Dev
+				ro.SrcF.Entries = append(ro.SrcF.Entries, ne)
+			}
+		}
 		res := runSync(syncOpt{Cfg: wire.Config{Cap: core.Pick(R, []int{0, 1, 8, 64}), KeepStats: true}, Src: fs, Dest: dest, Recv: ropt})
 		if checkHang(r, res, fmt.Sprintf("round %d edits %v", round, ro.Edits)) {
 			return nil
